@@ -2,6 +2,7 @@ package main
 
 import (
 	"fmt"
+	"go/constant"
 	"go/token"
 	"go/types"
 	"strings"
@@ -52,25 +53,52 @@ func rulePtr(w *World, r *Report, pkg *ssa.Package, tag string) {
 		n++
 		contentWrites = append(contentWrites, c.Block())
 		key := fmt.Sprintf("%s:write#%d", fnName(fn), n)
-		okEsc := false
-		why := valueName(strip(arg))
-		if call, isC := strip(arg).(*ssa.Call); isC {
-			switch calleeFullName(call) {
-			case "github.com/go-openapi/jsonpointer.Escape":
-				okEsc = true
-			case "strconv.Itoa", "strconv.FormatInt":
-				okEsc = true // digits and '-' need no escaping
+		why := ""
+		var tokenOK func(v ssa.Value, seen map[ssa.Value]bool) bool
+		tokenOK = func(v ssa.Value, seen map[ssa.Value]bool) bool {
+			v = strip(v)
+			if seen[v] {
+				return true
 			}
-		}
-		if !okEsc && tag == "lib" {
-			// a deferred string-or-integer token is written raw; safe only if
-			// every such value is made of a string strconv.Atoi accepted
-			if cv, ok := strip(arg).(*ssa.Extract); ok {
-				if ta, ok := cv.Tuple.(*ssa.TypeAssert); ok && typeName(ta.AssertedType) == "jsonStringOrInteger" {
-					okEsc, why = stringOrIntegerLemma(w, pkg)
+			seen[v] = true
+			switch x := v.(type) {
+			case *ssa.Const:
+				return true
+			case *ssa.Call:
+				switch calleeFullName(x) {
+				case "github.com/go-openapi/jsonpointer.Escape", "strconv.Itoa", "strconv.FormatInt":
+					return true
+				}
+			case *ssa.Phi:
+				for _, e := range x.Edges {
+					if !tokenOK(e, seen) {
+						return false
+					}
+				}
+				return true
+			case *ssa.UnOp:
+				if a, isA := x.X.(*ssa.Alloc); isA && x.Op == token.MUL {
+					if sv, single := singleStore(a); single {
+						return tokenOK(sv, seen)
+					}
+				}
+			case *ssa.Extract:
+				if tag == "lib" {
+					if ta, isTA := x.Tuple.(*ssa.TypeAssert); isTA && typeName(ta.AssertedType) == "jsonStringOrInteger" {
+						ok2, w2 := stringOrIntegerLemma(w, pkg)
+						if !ok2 {
+							why = w2
+						}
+						return ok2
+					}
 				}
 			}
+			if why == "" {
+				why = valueName(v)
+			}
+			return false
 		}
+		okEsc := tokenOK(arg, map[ssa.Value]bool{})
 		r.Check(okEsc, rule, key, w.Pos(c.Pos()), "the written token is the output of jsonpointer.Escape (or a decimal integer)",
 			"an unescaped string ("+why+") is written into the JSON Pointer: keys containing '/' or '~' are mistranslated")
 	})
@@ -332,16 +360,61 @@ func rulePair(w *World, r *Report, pkg *ssa.Package, tag string) {
 	fn := w.Method(pkg, "Diff", "RenderPatch")
 	r.Fn(fnName(fn))
 	lits := opLiterals(fn, pkg)
+	// helpers the renderer hands its work to (depth 2)
+	helperCalls := map[*ssa.Function][]*ssa.Call{}
+	var collect func(f *ssa.Function, depth int)
+	collect = func(f *ssa.Function, depth int) {
+		allInstrs(f, func(in ssa.Instruction) {
+			c, ok := in.(*ssa.Call)
+			if !ok {
+				return
+			}
+			sf := staticCallee(c)
+			if sf == nil || fnPkg(sf) != pkg.Pkg || sf.Blocks == nil || sf.Parent() != nil || sf.Name() == "writePointer" {
+				return
+			}
+			if hl := opLiterals(sf, pkg); len(hl) > 0 {
+				if _, seen := helperCalls[sf]; !seen {
+					lits = append(lits, hl...)
+					if depth < 2 {
+						collect(sf, depth+1)
+					}
+				}
+				helperCalls[sf] = append(helperCalls[sf], c)
+			}
+		})
+	}
+	collect(fn, 0)
 	if len(lits) < 3 {
 		r.Bad(rule, fnName(fn)+":literals", w.Pos(fn.Pos()), fmt.Sprintf("only %d JSON Patch op literals found", len(lits)))
 		return
 	}
 	wp := pkg.Func("writePointer")
 	for i, l := range lits {
-		okSrc := false
-		if ex, ok := strip(l.fields["Path"]).(*ssa.Extract); ok && ex.Index == 0 {
-			if c, ok := ex.Tuple.(*ssa.Call); ok && staticCallee(c) == wp && wp != nil {
-				okSrc = true
+		fromWP := func(v ssa.Value) bool {
+			if ex, ok := strip(v).(*ssa.Extract); ok && ex.Index == 0 {
+				if c, ok := ex.Tuple.(*ssa.Call); ok && staticCallee(c) == wp && wp != nil {
+					return true
+				}
+			}
+			return false
+		}
+		okSrc := fromWP(l.fields["Path"])
+		if p, isParam := strip(l.fields["Path"]).(*ssa.Parameter); isParam && !okSrc {
+			// literal lives in a helper: every caller must pass writePointer's output
+			helper := p.Parent()
+			pi := -1
+			for i, q := range helper.Params {
+				if q == p {
+					pi = i
+				}
+			}
+			calls := helperCalls[helper]
+			okSrc = len(calls) > 0 && pi >= 0
+			for _, c := range calls {
+				if pi >= len(c.Call.Args) || !fromWP(c.Call.Args[pi]) {
+					okSrc = false
+				}
 			}
 		}
 		r.Check(okSrc, rule, fmt.Sprintf("%s:op#%d:%s:pointer-from-writePointer", fnName(fn), i+1, l.op), w.Pos(l.alloc.Pos()),
@@ -629,19 +702,37 @@ func rulePtrRead(w *World, r *Report, pkg *ssa.Package) {
 			}
 		}
 	})
-	// the dash arm produces -1
+	// the dash arm produces -1: a numeric constant -1 is used in a block that
+	// lies behind the true edge of a comparison with "-"
 	minus := false
-	allInstrs(fn, func(in ssa.Instruction) {
-		if c, ok := in.(*ssa.Call); ok {
-			if sf := staticCallee(c); sf != nil && sf.Name() == "NewJsonNode" {
-				if mi, ok := c.Call.Args[0].(*ssa.MakeInterface); ok {
-					if k, ok := constInt(mi.X); ok && k == -1 {
-						minus = true
+	for _, b := range fn.Blocks {
+		cond, tE, _, ok := branchEdges(b)
+		if !ok {
+			continue
+		}
+		bo, isB := cond.(*ssa.BinOp)
+		if !isB || bo.Op != token.EQL {
+			continue
+		}
+		if s, isK := constString(bo.Y); !isK || s != "-" {
+			continue
+		}
+		for _, blk := range fn.Blocks {
+			if blk != tE.To() && !edgeDominates(tE, blk) {
+				continue
+			}
+			for _, in := range blk.Instrs {
+				var ops []*ssa.Value
+				for _, op := range in.Operands(ops) {
+					if c, isC := (*op).(*ssa.Const); isC && c.Value != nil {
+						if f, okf := constantFloat(c); okf && f == -1 {
+							minus = true
+						}
 					}
 				}
 			}
 		}
-	})
+	}
 	r.Check(decoded, rule, fnName(fn)+":decoded-tokens", pos, "tokens are taken from DecodedTokens (unescaped)", "tokens are not decoded (~0, ~1 stay escaped): keys with '/' or '~' are misread")
 	r.Check(atoi, rule, fnName(fn)+":digits-to-index", pos, "tokens accepted by strconv.Atoi become indices", "numeric tokens are no longer turned into indices")
 	r.Check(dash && minus, rule, fnName(fn)+":dash-to-minus-one", pos, `the token "-" becomes index -1 (append)`, `the token "-" is no longer mapped to the append index -1`)
@@ -904,17 +995,19 @@ func ruleMergeRead(w *World, r *Report, pkg *ssa.Package) {
 	r.Fn(fnName(fn))
 	h := newHunkType(pkg)
 	n := 0
-	allInstrs(fn, func(in ssa.Instruction) {
+	var allIn []ssa.Instruction
+	withClosures(fn, func(f *ssa.Function) { allInstrs(f, func(in ssa.Instruction) { allIn = append(allIn, in) }) })
+	for _, in := range allIn {
 		a, ok := in.(*ssa.Alloc)
 		if !ok || !types.Identical(a.Type().(*types.Pointer).Elem(), h.named) {
-			return
+			continue
 		}
 		n++
 		hasMerge := hunkMergeFlag(a)
 		r.Check(hasMerge, rule, fmt.Sprintf("%s:hunk#%d", fnName(fn), n), w.Pos(a.Pos()), "every hunk read from a merge patch carries Metadata.Merge",
 			"a hunk read from a merge patch lacks the Merge flag: it is applied strictly and demands the old value to be absent")
-	})
-	if n < 2 {
+	}
+	if n < 1 {
 		r.Bad(rule, fnName(fn)+":instance-floor", w.Pos(fn.Pos()), fmt.Sprintf("only %d hunk literals in readMergeInto", n))
 	}
 	// null -> void: the value stored for a leaf is a phi/variable that receives voidNode on the isNull-true edge
@@ -932,18 +1025,25 @@ func ruleMergeRead(w *World, r *Report, pkg *ssa.Package) {
 			if !okb || cond != ssa.Value(c) {
 				continue
 			}
-			// a phi after the branch takes voidNode from the true side
+			isVoidVal := func(v ssa.Value) bool {
+				v = strip(v)
+				if c, ok := v.(*ssa.Const); ok {
+					return typeName(c.Type()) == "voidNode"
+				}
+				return typeName(v.Type()) == "voidNode"
+			}
 			for _, blk := range fn.Blocks {
 				for _, in2 := range blk.Instrs {
-					phi, ok := in2.(*ssa.Phi)
-					if !ok {
-						continue
-					}
-					for i, e := range phi.Edges {
-						if mi, ok := e.(*ssa.MakeInterface); ok && typeName(mi.X.Type()) == "voidNode" {
-							if edgeDominatesOrIs(tE, blk.Preds[i], blk) {
+					switch y := in2.(type) {
+					case *ssa.Phi:
+						for i, e := range y.Edges {
+							if mi, ok := e.(*ssa.MakeInterface); ok && isVoidVal(mi.X) && edgeDominatesOrIs(tE, blk.Preds[i], blk) {
 								conv = true
 							}
+						}
+					case *ssa.MakeInterface:
+						if isVoidVal(y.X) && (blk == tE.To() || edgeDominates(tE, blk)) {
+							conv = true
 						}
 					}
 				}
@@ -962,4 +1062,76 @@ func sameValue(a, b ssa.Value) bool {
 	ra, sa := accessPath(a)
 	rb, sb := accessPath(b)
 	return ra == rb && selString(sa) == selString(sb) && len(sa) > 0
+}
+
+func constantFloat(c *ssa.Const) (float64, bool) {
+	if c.Value == nil {
+		return 0, false
+	}
+	switch c.Value.Kind() {
+	case constant.Int, constant.Float:
+		f, _ := constant.Float64Val(c.Value)
+		return f, true
+	}
+	return 0, false
+}
+
+// rulePtrAgree: the test by which writePointer refuses number-like keys is the
+// very function by which readPointer turns tokens into indices; otherwise
+// some key is written that the reader takes for an index.
+func rulePtrAgree(w *World, r *Report, pkg *ssa.Package) {
+	const rule = "R-PTRAGREE"
+	classify := func(fn *ssa.Function) map[string]bool {
+		out := map[string]bool{}
+		for _, b := range fn.Blocks {
+			cond, _, _, ok := branchEdges(b)
+			if !ok {
+				continue
+			}
+			switch x := cond.(type) {
+			case *ssa.BinOp:
+				if !(isNilConst(x.X) || isNilConst(x.Y)) {
+					continue
+				}
+				ev := x.X
+				if isNilConst(ev) {
+					ev = x.Y
+				}
+				if ex, ok := ev.(*ssa.Extract); ok {
+					if c, ok := ex.Tuple.(*ssa.Call); ok && isStringArgCall(c) {
+						out[calleeFullName(c)] = true
+					}
+				}
+			case *ssa.Call:
+				if isStringArgCall(x) && calleeFullName(x) != "builtin:len" {
+					if sf := staticCallee(x); sf == nil || (sf.Name() != "isVoid" && sf.Name() != "isNull") {
+						out[calleeFullName(x)] = true
+					}
+				}
+			}
+		}
+		return out
+	}
+	rd := classify(w.Func(pkg, "readPointer"))
+	wr := classify(w.Func(pkg, "writePointer"))
+	delete(rd, "github.com/go-openapi/jsonpointer.New")
+	r.Fn(fnName(w.Func(pkg, "readPointer")))
+	r.Fn(fnName(w.Func(pkg, "writePointer")))
+	same := len(rd) > 0
+	for k := range rd {
+		if !wr[k] {
+			same = false
+		}
+	}
+	r.Check(same, rule, "v2.pointer:index-test-agrees", w.Pos(w.Func(pkg, "writePointer").Pos()),
+		fmt.Sprintf("readPointer classifies tokens with %v and writePointer refuses keys with the same test", sortedKeys(rd)),
+		fmt.Sprintf("readPointer classifies tokens as indices with %v, writePointer tests keys with %v: a key the writer lets through can be read back as an array index", sortedKeys(rd), sortedKeys(wr)))
+}
+
+func isStringArgCall(c *ssa.Call) bool {
+	if len(c.Call.Args) == 0 || c.Call.IsInvoke() {
+		return false
+	}
+	b, ok := c.Call.Args[0].Type().Underlying().(*types.Basic)
+	return ok && b.Kind() == types.String
 }
